@@ -33,7 +33,10 @@ def obligation_smt2(o, tier=2):
 
 EM = {"smt.auto_config": False, "smt.mbqi": False}
 # (tier, solver config, share of the time budget)
-PLAN = [(0, EM, 0.1), (1, EM, 0.3), (2, EM, 0.3), (2, {}, 0.3)]
+EM7 = {"smt.auto_config": False, "smt.mbqi": False, "smt.random_seed": 7}
+# tier 0 (symbols uninterpreted) settles most obligations in well under a second; it gets a generous share so that a loaded
+# machine does not push such an obligation into the (harder) tiers with definitions
+PLAN = [(0, EM, 0.3), (1, EM, 0.25), (2, EM, 0.2), (2, {}, 0.15), (0, EM7, 0.1)]
 
 
 def _solve(args):
